@@ -57,3 +57,11 @@ func LemmaDecDigits(y int) {}
 //@   ensures decOK(s) && decVal(s) == v
 
 func LemmaParseFormat(s []byte, v uint64) {}
+
+// the same for a string (no conversion, so the text is the very term the parser's contract speaks about)
+//@ func LemmaParseFormatS
+//@   trusted
+//@   requires s == decText(v)
+//@   ensures decOK(s) && decVal(s) == v
+
+func LemmaParseFormatS(s string, v uint64) {}
